@@ -38,6 +38,17 @@ func Encode(enc zapcore.Encoder, ent zapcore.Entry, p Placement, viaCore bool) (
 		if err := core.Write(ent, call); err != nil {
 			return nil, fmt.Sprintf("core.Write returned %v", err)
 		}
+		// the same entry once more through the same derived core: a logger is
+		// used more than once, and what it emits must not depend on its own
+		// earlier use (the bytes of the second line are what is checked)
+		first := append([]byte(nil), s.b...)
+		s.b = s.b[:0]
+		if err := core.Write(ent, call); err != nil {
+			return nil, fmt.Sprintf("second core.Write returned %v", err)
+		}
+		if !bytes.Equal(first, s.b) {
+			return nil, fmt.Sprintf("the same entry written twice through the same core gives different lines: first %q, second %q", clip(first), clip(s.b))
+		}
 		return s.b, nil
 	}
 	e := enc
